@@ -84,6 +84,7 @@ func runC14(ctx *core.Ctx, pool *par.Pool) {
 	kinds := map[string]int{}
 	for _, cfg := range cfgs {
 		cfg := cfg
+		ctx.Share(ctx.Budget() / time.Duration(len(cfgs)))
 		var grown []*xstate.Node
 		st := xstate.BFS(ctx, pool, xstate.Spec{Cfg: cfg, Alphabet: resizeAlphabet(ctx.Quick()), MaxDepth: depth, Flags: []string{"c14"},
 			OnTransition: func(from *xstate.Node, s *xstate.Succ, isNew bool, to *xstate.Node) {
@@ -122,6 +123,7 @@ func runC14(ctx *core.Ctx, pool *par.Pool) {
 		ctx.Set("depth_"+cfg.Name, st.Depth)
 		xstate.RunProbes(ctx, pool, cfg, grown, "capacity", nil, []string{"c14"}, func(n *xstate.Node, r *xstate.ProbeResult) { probes++ })
 	}
+	ctx.Unshare()
 	ctx.Set("resize_transitions", resizes)
 	ctx.Set("resize_kinds", kinds)
 	ctx.Set("capacity_probes_after_grow", probes)
